@@ -92,7 +92,7 @@ class Gen:
         kind = rng.choices(
             ["set", "del", "pop", "popitem", "clear", "setdefault", "update", "get", "contains", "len", "keys",
              "getm", "view", "eq", "update_both", "update_proxy", "rawset"],
-            [24, 13, 8, 3, 3, 6, 5, 6, 3, 2, 3, 6, 4, 2, 0.7, 0.5, 0.8])[0]
+            [24, 13, 8, 3, 3, 6, 5, 6, 3, 2, 3, 6, 4, 2, 2, 0.5, 0.8])[0]
         if kind == "getm":
             k = self.pick_key(abs_kp, p_fresh=0.3)
             d = None if rng.random() < 0.5 else {"d": gt.leaf(rng, "isn")}
@@ -550,7 +550,7 @@ class C06(Prop):
             "fetched earlier (used after other writes/reloads re-merged the root), interleaved with "
             "load_defaults/overrides/collection/shell_env and clone; reads also through .get(k[,d]), items(), "
             "values(), iter and ==; pop(k, None); update(mapping, **kw), update(<nested proxy>) and edits "
-            "through the raw dict handed out by get()/setdefault() at a low rate (known findings F-C06f/g/h); "
+            "through the raw dict handed out by get()/setdefault() at a low rate (known findings F-C06g/h); "
             "list and tuple leaves in levels and writes; 3% of the cases walk into the F-C06b corner on "
             "purpose; the deep view is read through the root after every operation.  Non-trivial = a deletion followed later by a reload or by a "
             "write at another depth, or a mutation through a held proxy that went stale")
@@ -703,8 +703,6 @@ class C06(Prop):
                    if levels_have_section_with_other_key(case, obs, pv[0], pv[1])]
 
             def why(p):
-                if any(under(p, q) for q in info.get("lost_writes", [])):
-                    return "F-C06f"      # update(mapping, **kw) dropped the mapping
                 if any(under(p, q) or under(q, p) for q in info.get("stale_paths", [])):
                     return "F-C06e"      # an earlier stale decision surfaces
                 if any(under(p, q) or under(q, p) for q in info.get("raw_writes", [])):
